@@ -182,6 +182,14 @@ def regenerate():
     return st, (["Generated/GenState.lean"] if changed else [])
 
 
+def extract():
+    return scan()
+
+
+def write(st):
+    _write_if_changed(os.path.join(LEAN_GEN, "GenState.lean"), render(st))
+
+
 if __name__ == "__main__":
     st, ch = regenerate()
     print(ch)
